@@ -24,8 +24,9 @@ RULE = ("Hypothesis-generated worlds (2 graphs, 4-10 episodes of 3 owners, GEL e
         "graphs/episodes for parallel; non-empty utterance for reflection). Distinct = (gate, subtree, world, script).")
 ASSUMPTIONS = ["t3.jsonl / t3_plan.jsonl / t3_dialogue.jsonl carry raw timings even under CI=true: compared by record "
                "count and by content with ms* fields masked",
-               "t2.quality.shadow stays false (shadow tracing is a separate triple-gated feature designed to run while "
-               "quality is off); the two reflection budgets belong to the reflection gate, not the scheduler gate",
+               "t2.quality.shadow (a perf feature designed to run while quality is off: needs perf.enabled && "
+               "perf.metrics.report_memory) is only set while the perf master switch is closed; the two reflection "
+               "budgets belong to the reflection gate, not the scheduler gate",
                "snapshot sidecars (.meta) excluded (created_at only depends on SOURCE_DATE_EPOCH, which is fixed)"]
 
 GATES = ["perf", "parallel", "gel", "quality", "hybrid", "reflection", "scheduler"]
@@ -128,7 +129,7 @@ def bases(draw):
     if draw(_B):
         b["t1"]["queue_budget"] = draw(st.sampled_from([2, 5, 10000]))
     feats = draw(st.sets(st.sampled_from(["perf_on", "gel_on", "hybrid_on", "quality_on", "reflection_on", "sched_on", "caches_off",
-                                          "snippet_template", "snippet_template", "slice_t2k"]), max_size=4))
+                                          "snippet_template", "snippet_template", "slice_t2k", "shadow_on", "shadow_on"]), max_size=4))
     return {"over": b, "feats": sorted(feats)}
 
 
@@ -143,6 +144,10 @@ def feature_overrides(feats, gate):
         o = world.deep_merge(o, {"t2": {"hybrid": {"enabled": True, "lambda_graph": 1.0, "edge_threshold": 0.0}}})
     if "quality_on" in feats and gate not in ("quality",):
         o = world.deep_merge(o, {"t2": {"quality": {"enabled": True, "mmr": {"enabled": True}}}})
+    if "shadow_on" in feats and gate == "perf" and "quality_on" not in feats:
+        # shadow tracing requested (quality off) on BOTH sides; it is a perf feature (perf.enabled && report_memory), so
+        # with the perf master switch closed no trace may appear whatever perf.metrics says
+        o = world.deep_merge(o, {"t2": {"quality": {"enabled": False, "shadow": True}}})
     if "reflection_on" in feats and gate != "reflection":
         o = world.deep_merge(o, {"t3": {"allow_reflection": True}})
     if "sched_on" in feats and gate != "scheduler":
@@ -211,7 +216,11 @@ def cases(draw, gate=None):
     elif gate == "gel":
         sub = {"graph": world.deep_merge(_draw_sub(GEL_SUB), {"enabled": False})}
     elif gate == "quality":
-        sub = {"t2": {"quality": world.deep_merge(_draw_sub(QUALITY_SUB), {"enabled": False, "shadow": False})}}
+        # shadow tracing also needs perf.enabled && perf.metrics.report_memory: only asked for when the base keeps perf off
+        shadow = "perf_on" not in base["feats"] and draw(_B)
+        sub = {"t2": {"quality": world.deep_merge(_draw_sub(QUALITY_SUB), {"enabled": False, "shadow": shadow})}}
+        if shadow and draw(_B):
+            sub["perf"] = {"enabled": False, "metrics": {"report_memory": True}}  # second closed gate, populated as well
     elif gate == "hybrid":
         sub = {"t2": {"hybrid": world.deep_merge(_draw_sub(HYBRID_SUB), {"enabled": False})}}
     elif gate == "reflection":
